@@ -281,7 +281,7 @@ fn main() {
     let run = Run::new("C05", "exploration");
     let th = run.thorough();
     let mut fam = planar_family(3);
-    let spec: Vec<(usize, usize)> = if th { vec![(2, 6), (3, 5), (4, 4)] } else { vec![(2, 5), (3, 3)] };
+    let spec: Vec<(usize, usize)> = if th { vec![(2, 6), (3, 5), (4, 4)] } else { vec![(2, 5), (3, 5), (4, 3)] };
     fam.extend(braid_family(&spec));
     run.add("diagrams", fam.len() as u64);
     let grid: Vec<(i64, i64)> = [0i64, 1, -1, 2, 3].iter().flat_map(|&h| [0i64, 1, -1, 2, 3].iter().map(move |&t| (h, t))).collect();
